@@ -62,6 +62,13 @@ func publicKeyOfKind(kind string) crypto.PublicKey {
 		return &ecdsa.PublicKey{Curve: elliptic.P256(), X: new(big.Int).Set(k.X), Y: new(big.Int).Add(k.Y, big.NewInt(1))}
 	case "infinity":
 		return &ecdsa.PublicKey{Curve: elliptic.P256(), X: new(big.Int), Y: new(big.Int)}
+	case "unreduced":
+		// a valid point with a coordinate that is not reduced modulo the field prime
+		k := keyFor("p256-a").(*ecdsa.PrivateKey)
+		return &ecdsa.PublicKey{Curve: elliptic.P256(), X: new(big.Int).Add(k.X, elliptic.P256().Params().P), Y: new(big.Int).Set(k.Y)}
+	case "negative":
+		k := keyFor("p256-a").(*ecdsa.PrivateKey)
+		return &ecdsa.PublicKey{Curve: elliptic.P256(), X: new(big.Int).Sub(k.X, elliptic.P256().Params().P), Y: new(big.Int).Set(k.Y)}
 	case "ecdsa-value":
 		return *(keyFor("p256-a").Public().(*ecdsa.PublicKey))
 	case "ed-private":
